@@ -170,4 +170,7 @@ example : (Build.build exOps).sims.length = 2 ∧ ((Build.build exOps).sim 0).tr
     ((cacheTriggeringAncestors (Build.build exOps).sims []).toOption.map fun out => (Build.runCfg out 3 100 true true false).wfB) = some true := by
   decide
 
+/-- non-vacuity of the flat form: `exOps` starts every simulator in the main group -/
+example : Build.flatOps exOps = true := by decide
+
 end Mosaik.C01
